@@ -479,6 +479,14 @@ func randTarget(r *vh.Rand) string {
 
 func randSub(r *vh.Rand, c int, known *[][]string) Op {
 	pre := randGPath(r, randNames(r, 1, 0))
+	if r.Chance(1, 40) {
+		// a prefix longer than the capacity path.ToStrings allocates (20)
+		long := make([]string, 19+r.Intn(4))
+		for i := range long {
+			long[i] = "a"
+		}
+		pre = randGPath(r, long)
+	}
 	pre.Target = randTarget(r)
 	if r.Chance(1, 5) {
 		pre.Origin = "oc"
@@ -747,6 +755,7 @@ func main() {
 	flag.Set("stderrthreshold", "FATAL")
 	o := vh.ParseFlags()
 	meta := vh.NewMeta("corpus cases; pairs-1: for every query path q of length 0..4 over {a,b,*} one case registering q and matching EVERY update path of length 0..4 over {a,b,*} against it (Update and UpdateOnce), then removal and the same updates again; pairs-2: two queries (same or different client) of length 0..3 against every update path of length 0..3 (quick: a seeded slice; thorough: all); sub: seeded subscribe-level sequences (1..3 subscription lists with 1..3 entries incl. entries without path, origins, keyed elements, deprecated element paths; notifications with 1..3 updates/deletes through Server.Update before and after removal); seq: seeded sequences of 4..30 operations mixing AddQuery (clients 0..2) / addSubscription (clients 3..7, one list each) / removal (repeated) / Update / UpdateOnce / Server.Update / trie size. distinct = distinct operation sequence; non-trivial = at least one registration and at least one update that was offered to some client")
+	meta.Samples = []interface{}{} // never null in meta.json
 	e := &emitter{dir: o.Out, cf: vh.NewCaseFile(), meta: meta, limit: 1500}
 
 	if o.Replay != "" {
